@@ -11,7 +11,7 @@ import itertools
 from ..source import AnalysisError, norm
 from ..cfg import class_named, function_named
 from ..interp import Interp, Obj, Raised, Env
-from .C08 import ISA, ident, const, binop, base_stubs, select_ctor, _show, _conjuncts
+from .C08 import ISA, ident, const, binop, base_stubs, select_ctor, _show
 
 TS = 'mindsdb_sql/planner/plan_join_ts.py'
 TU = 'mindsdb_sql/planner/ts_utils.py'
@@ -46,8 +46,11 @@ def mk_stubs(ctx, fns, utils_fns, captured):
     stubs['self.planner.plan.add_step'] = add_step
 
     def fetch_step(it, s):
-        st = Obj('FetchDataframeStep', query=s, integration='int1')
-        captured['fetches'].append(s)
+        # like QueryPlanner.get_integration_select_step: the step holds a deep copy of the select it is given
+        c = s.clone()
+        c.from_table = s.from_table
+        st = Obj('FetchDataframeStep', query=c, integration='int1')
+        captured['fetches'].append(c)
         return st
     stubs['self.planner.get_integration_select_step'] = fetch_step
 
@@ -100,6 +103,7 @@ def run(ctx):
         table = Obj('Identifier', parts=['int1', 'tbl'], alias=Obj('Identifier', parts=['ta'], alias=None))
         predictor = Obj('Identifier', parts=['proj', 'tp'], alias=Obj('Identifier', parts=['tb'], alias=None))
         it = Interp(ISA, stubs, max_steps=60000, methods=_METHODS)
+        it.module, it.src = utree, ctx.src          # helpers of ts_utils and what it imports from the planner package
         out = {'raised': None, 'ret': None}
         try:
             out['ret'] = it.call_function(ptp, [self_, q, table, 'proj', predictor], {}, Env())
@@ -121,15 +125,22 @@ def run(ctx):
     REF = {'>': (('<=', 5), True), '>=': (('<', 5), True), '=': (('<=', 5), False), '<': (False, True), '<=': (False, True),
            'between': (('<', 3), True), '> latest': (None, False), '= latest': (None, False), 'none': (False, True)}
     OUT = {'=': ('>', 5)}       # pinned by tests/test_planner/test_ts_predictor.py::test_join_predictor_timeseries_concrete_date_equal
-    for op, pf, groups, limit in itertools.product(conds, ('none', 'before', 'after'), ([], ['grp'], ['grp', 'g2']), (None, 7)):
+    for op, pf, groups, limit in itertools.product(conds, ('none', 'before', 'after', 'nested-right', 'nested-left'), ([], ['grp'], ['grp', 'g2']), (None, 7)):
         if pf != 'none' and 'grp' not in groups:
             continue        # a filter on a column that is not a group column is rejected (see C15.rejects)
+        if pf.startswith('nested') and ('g2' not in groups or op == 'none'):
+            continue
         tf = conds[op]()
         part = binop('=', ident('ta.grp'), const(1)) if pf != 'none' else None
-        parts_ = [x for x in ((part, tf) if pf == 'before' else (tf, part)) if x is not None]
-        where = None
-        for x in parts_:
-            where = x if where is None else binop('and', where, x)
+        if pf.startswith('nested'):
+            # a parenthesised group: grp = 1 AND (g2 = 2 AND <time>)  /  (<time> AND g2 = 2) AND grp = 1
+            part2 = binop('=', ident('ta.g2'), const(2))
+            where = binop('and', part, binop('and', part2, tf)) if pf == 'nested-right' else binop('and', binop('and', tf, part2), part)
+        else:
+            parts_ = [x for x in ((part, tf) if pf == 'before' else (tf, part)) if x is not None]
+            where = None
+            for x in parts_:
+                where = x if where is None else binop('and', where, x)
         user_tf_sig = _sig(tf) if tf is not None else None
         label = f'time {op} | partition filter {pf} | group columns {groups} | limit {limit}'
         res = run_ptp(where, groups, limit)
@@ -153,8 +164,12 @@ def run(ctx):
             notnull = [x for x in sigs if x == ('is not', TIME, None)]
             varc = [x for x in sigs if x[0] == '=' and isinstance(x[2], str) and x[2].startswith('$var[')]
             partc = [x for x in sigs if x == ('=', 'grp', 1)]
+            part2c = [x for x in sigs if x == ('=', 'g2', 2)]
             timec = [x for x in sigs if x[1] == TIME and x not in notnull]
-            other = [x for x in sigs if x not in notnull and x not in varc and x not in partc and x not in timec]
+            other = [x for x in sigs if x not in notnull and x not in varc and x not in partc and x not in timec and x not in part2c]
+            if pf.startswith('nested'):
+                ctx.ob('C15.partition-filter', f'{op}:{kind}:nested', len(part2c) == 1, f'[{label}] the user\'s filter g2 = 2 (inside a parenthesised group) occurs '
+                       f'{len(part2c)}x in the {kind} query', file=TS, line=ptp.lineno)
             ctx.ob('C15.not-null', f'{op}:{kind}', len(notnull) == 1, f'[{label}] the {kind} query has {len(notnull)} `{TIME} IS NOT NULL` conjunct(s), expected 1: '
                    f'rows without an order value must not reach the model', file=TS, line=ptp.lineno)
             ctx.ob('C15.partition-filter', f'{op}:{kind}', len(partc) == (1 if pf != 'none' else 0),
@@ -193,7 +208,11 @@ def run(ctx):
             pq = res['partition_queries']
             ok = len(pq) == 1 and pq[0].distinct is True and [_field_of(t) for t in pq[0].targets] == groups
             sig_p = [_sig(c) for c in _conjuncts(pq[0].where)] if pq else None
-            ctx.ob('C15.partitions', f'{op}:{len(groups)}', ok and sig_p == ([('=', 'grp', 1)] if pf != 'none' else []),
+            want_p = [('=', 'grp', 1)] if pf != 'none' else []
+            if pf.startswith('nested'):
+                want_p = sorted(want_p + [('=', 'g2', 2)])
+                sig_p = sorted(sig_p) if sig_p is not None else None
+            ctx.ob('C15.partitions', f'{op}:{len(groups)}', ok and sig_p == want_p,
                    f'[{label}] the partition values must come from SELECT DISTINCT {groups} under the non-time filters only; found where={sig_p}', file=TS, line=ptp.lineno)
             mr = [s for s in res['plan'] if s.kind == 'MapReduceStep']
             ctx.ob('C15.partitions', f'{op}:{len(groups)}:map-reduce', len(mr) == 1 and mr[0].values is res['plan'][0].result,
@@ -295,6 +314,15 @@ def run(ctx):
             ctx.ob('C15.join-sides', label, sides_ok, f'[{label}] the join keeps the sides of the query (model on the {"left" if left_is_model else "right"})', file=TS, line=pl.lineno)
     ctx.setcount('truth_table_rows', rows)
     ctx.floor('truth_table_rows', 135)
+
+
+def _conjuncts(w, top=True):
+    """conjuncts of a WHERE; an AND node with a missing (None) operand is reported as such instead of being skipped"""
+    if w is None:
+        return [] if top else [Obj('MissingOperand', op='<missing operand of AND>', args=[])]
+    if isinstance(w, Obj) and w.kind == 'BinaryOperation' and str(w.op).lower() == 'and':
+        return _conjuncts(w.args[0], False) + _conjuncts(w.args[1], False)
+    return [w]
 
 
 def _field(ob):
